@@ -49,6 +49,16 @@ CHECKS = {
         note="Worlds are compared through creation ordinals, not raw handles (DESIGN 4.17).",
         technique=SIM + "; differential batch call vs. loop of single calls on lock-step worlds",
         ref="DESIGN.md section 5, C08"),
+    "C09": dict(
+        text="Generated world histories interleaved with lock episodes: nested queries through plain and registered filters released by generated paths and orders, the lock of a Q-variant's returned query, the lock held during removal-event delivery, and the full nesting limit. Under every lock the complete table of ID-based structural entry points (27 entries plus no-effect forms, arguments legal in the current state) is walked: each call must panic with the locked-world message and leave the hook's digest of the hidden state byte-identical; lock-bit count must equal the number of open queries after every open/release; afterwards the refused call is repeated and must succeed.",
+        note="The entry-point table is enumerated completely per episode; world states, lock shapes and release orders are sampled. World.Set is not in the statement's list and is not asserted (DESIGN 4.10).",
+        technique=SIM + "; fault enumeration of all structural entry points under generated lock shapes; hidden-state digest before/after",
+        ref="DESIGN.md section 5, C09"),
+    "C10": dict(
+        text="Legal generated histories with injected illegal calls (35% of operations) of every class the documentation declares illegal (15 classes through ~40 call sites, plus out-of-range query calls, cache/resource/registry misuse); each must panic, and for single-entity operations the world must afterwards equal the unchanged model in every observable, including - through the hook - the entity pool that determines future handles; the history continues and keeps matching the model.",
+        note="Illegal batch calls are only required to panic (the statement restricts 'changes nothing' to single-entity operations, DESIGN 4.8). Hidden bookkeeping (empty tables, graph nodes) may change on a rejected call (DESIGN 4.9).",
+        technique=SIM + " with fault injection of every documented illegal-argument class",
+        ref="DESIGN.md section 5, C10"),
     "C11": dict(
         text="A recorder subscribed to everything; for every operation of generated histories the delivered events are compared, entity by entity, with the change the model computed (masks, ID lists, old/new relation, old target, type bits, lock state and entity state at delivery time, Q-variant timing); a twin world without listener attributes listener-only panics.",
         note="Order of events inside one batch call is not compared (DESIGN 4.7).",
